@@ -428,7 +428,9 @@ class MADDPG(MultiAgentRLAlgorithm):
         action_masks, env_defined_actions, agent_masks = self.process_infos(infos)
 
         # Preprocess observations
-        preprocessed_states = list(self.preprocess_observation(obs).values())
+        # Pair every actor with its own agent's observation, whatever the order of the dict
+        preprocessed = self.preprocess_observation(obs)
+        preprocessed_states = [preprocessed[agent_id] for agent_id in self.agent_ids]
 
         action_dict = {}
         for idx, (agent_id, obs, actor) in enumerate(
